@@ -46,6 +46,7 @@ Mismatch(e, modelHit) == IF e.g = 0 /\ e.hit \in {0, 1} /\ e.hit # (IF modelHit 
 T_Req ==
   /\ IsEvent("req")
   /\ WellFormed(Ev.a)
+  /\ (Ev.g = 0 /\ Ev.hit = 1) => cache # {}         \* NoHitOnEmpty: a plan object can only be re-used after a request created one
   /\ Request(Ev.a)
   /\ cache \subseteq cache'                          \* capacity 1024 is never reached: nothing is evicted
   /\ obs' = Ev
